@@ -368,7 +368,7 @@ def run_pool(spec):
     try:
         if spec["kind"] == "random":
             for i in range(spec["runs"]):
-                if res.enough(20):
+                if res.enough(8):
                     break
                 prog = gen_program(rng)
                 sseed = rng.getrandbits(32)
@@ -393,7 +393,7 @@ def run_pool(spec):
             targets = [(ln, k, pk) for ln in lines for k in spec["ks"] for pk in KINDS]
             targets = [t for i, t in enumerate(targets) if i % spec["parts"] == spec["part"]]
             for (fn, ln), k, pk in targets:
-                if res.enough(20):
+                if res.enough(8):
                     break
                 # a fixed small program that exercises hand-off + shutdown + waitall, varied by rng
                 prog = gen_program(rng, pk)
